@@ -38,7 +38,68 @@ func c06Func(f *ast.File, recv, name string) *ast.FuncDecl {
 	return nil
 }
 
+// c06Globals (dimension audit, session 5): the process-global state the code of C06's anchors reaches - package-level
+// variables assigned inside a function (written after init) and every value read through config.GetSyncerConfig()
+// (one configuration object per process), per function. The harness draws / judges what is listed here
+// (channel.verifyCrc, the snapshot limiter); a new entry is a broken tie: decide whether it needs drawing.
+func c06Globals() {
+	var written, cfgReads []string
+	for _, rel := range []string{"syncer/input.go", "pkg/redis/psync.go", "syncer/channel.go", "syncer/memory_channel.go"} {
+		fset, f := parseFile(rel)
+		globals := map[string]bool{}
+		for _, d := range f.Decls {
+			if gd, ok := d.(*ast.GenDecl); ok && gd.Tok == token.VAR {
+				for _, sp := range gd.Specs {
+					for _, n := range sp.(*ast.ValueSpec).Names {
+						if n.Name != "_" {
+							globals[n.Name] = true
+						}
+					}
+				}
+			}
+		}
+		for _, d := range f.Decls {
+			fd, ok := d.(*ast.FuncDecl)
+			if !ok || fd.Body == nil {
+				continue
+			}
+			seen := map[string]bool{}
+			ast.Inspect(fd.Body, func(n ast.Node) bool {
+				switch x := n.(type) {
+				case *ast.AssignStmt:
+					if x.Tok == token.DEFINE {
+						return true
+					}
+					for _, l := range x.Lhs {
+						if id, ok := l.(*ast.Ident); ok && globals[id.Name] {
+							written = append(written, rel+": "+id.Name+" <- "+fd.Name.Name)
+						}
+					}
+				case *ast.SelectorExpr:
+					// the longest selector chain rooted at config.GetSyncerConfig()
+					r := c12Render(fset, x)
+					if strings.HasPrefix(r, "config.GetSyncerConfig().") {
+						r = strings.TrimSuffix(r, "()")
+						if !seen[r] {
+							seen[r] = true
+							cfgReads = append(cfgReads, rel+": "+fd.Name.Name+": "+r)
+						}
+						return false
+					}
+				}
+				return true
+			})
+		}
+	}
+	if written == nil {
+		written = []string{}
+	}
+	facts["c06_globals_written_after_init"] = written
+	facts["c06_config_reads"] = cfgReads
+}
+
 func genC06() {
+	defer c06Globals()
 	fset, f := parseFile("syncer/input.go")
 	sm := c06Func(f, "RedisInput", "syncMeta")
 	var ifs, psyncs []string
